@@ -120,6 +120,13 @@ CHECKS = {
         "The catalogue is hand-collected (mc/props/c20.py); an undocumented precondition is not in it.",
         "DESIGN.md 5 C20",
     ),
+    "C15": (
+        "exploration",
+        "exhaustive enumeration over a finite table: quad maps (structured, the library's disk/oval maps, an irregular map) and hex assemblies x jitter x frames x up to 16 subsets of interior points fixed by index and by position x iteration counts {1,2,5,50,200}, run on the real smoothers; adjacency reference model derived from the index lists alone",
+        "Boundary and fixed points must stay bit-identical; a single free interior point equals its edge-connected neighbours' average after one iteration; after 200 iterations every free point equals that average and a regular boundary yields the regular lattice; smoothed positions are copied back consistently to every face / mesh vertex.",
+        "Reference adjacency (boundary = side owned by one cell) in mc/props/c15.py.",
+        "DESIGN.md 5 C15",
+    ),
     "C02": (
         "model_checking",
         "stateless model checking of the implementation: choice-point explorer over set iteration orders (iterative deviation bounding) x exhaustive insertion orders / corner numberings / chop placements of small lattice assemblies, edge-family reference model",
